@@ -198,6 +198,7 @@ static const uint8_t y7 = 7; static const uint32_t u100000 = 100000; static cons
 static const double d05 = 0.5, d1e40 = 1e40, dm25 = -2.5, d3 = 3.0; static const float f025 = 0.25f;
 static const char cx = 'x';
 static const mpt::color tcol(0x22, 0x33, 0x44, 0x11);
+static const mpt::color tblack(0, 0, 0, 0xff), tblack_fe(0, 0, 0, 0xfe), tclear(0, 0, 0, 0), tclear_01(0, 0, 0, 1);   // opaque / transparent black and alpha neighbours
 static const mpt::fpoint tpt(0.25f, 0.75f), tpt2(2.0f, 3.0f);
 static const mpt::lineattr tlat(2, 3, 4, 5);
 static const char *tstr = "typed", *tstrnum = "9";
@@ -213,11 +214,13 @@ static void build_vals()
 	S(V_TEXT, "abc"); S(V_TEXT, "log"); S(V_TEXT, "LOG10"); S(V_TEXT, "n"); S(V_TEXT, "bez"); S(V_TEXT, "xy"); S(V_TEXT, "xyz"); S(V_TEXT, "two words");
 	S(V_LONG, X300.c_str());
 	S(V_POINT, "0.25 0.75"); S(V_POINT, "0.5 2"); S(V_POINT, "1 2 3");
+	S(V_COLOUR, "black"); S(V_COLOUR, "BLACK"); S(V_COLOUR, "#000000"); S(V_COLOUR, "#000000ff"); S(V_COLOUR, "#000000FF"); S(V_COLOUR, "#000000fe"); S(V_COLOUR, "#00000000"); S(V_COLOUR, "#00000001");
 	S(V_COLOUR, "red"); S(V_COLOUR, "Blue"); S(V_COLOUR, "white "); S(V_COLOUR, "redx"); S(V_COLOUR, "#ff0000"); S(V_COLOUR, "#11223344"); S(V_COLOUR, "#12"); S(V_COLOUR, "#1"); S(V_COLOUR, "#gg0000"); S(V_COLOUR, "bogus");
 	T(V_TINT, 'i', &i0); T(V_TINT, 'i', &i5); T(V_TINT, 'i', &im1); T(V_TINT, 'i', &i255); T(V_TINT, 'i', &i256); T(V_TINT, 'i', &i70000); T(V_TINT, 'i', &i120);
 	T(V_TINT, 'y', &y7); T(V_TINT, 'u', &u100000); T(V_TINT, 'x', &x5);
 	T(V_TFLT, 'd', &d05); T(V_TFLT, 'd', &d1e40); T(V_TFLT, 'd', &dm25); T(V_TFLT, 'd', &d3); T(V_TFLT, 'f', &f025);
 	T(V_TCHR, 'c', &cx);
+	T(V_TCOL, 'C', &tblack); T(V_TCOL, 'C', &tblack_fe); T(V_TCOL, 'C', &tclear); T(V_TCOL, 'C', &tclear_01);
 	T(V_TCOL, 'C', &tcol); T(V_TPT, 'P', &tpt); T(V_TPT, 'P', &tpt2); T(V_TLAT, 'L', &tlat);
 	T(V_TSTR, 's', &tstr); T(V_TSTR, 's', &tstrnum);
 	// reduced alphabet for secondary names (case variants, prefixes, aliases)
@@ -233,7 +236,7 @@ static std::string valdesc(const Val &v)
 	case 'i': return fmt("int32 %d", *(const int32_t *) v.ptr); case 'y': return fmt("uint8 %u", *(const uint8_t *) v.ptr);
 	case 'u': return fmt("uint32 %u", *(const uint32_t *) v.ptr); case 'x': return fmt("int64 %lld", (long long) *(const int64_t *) v.ptr);
 	case 'd': return fmt("double %g", *(const double *) v.ptr); case 'f': return fmt("float %g", (double) *(const float *) v.ptr);
-	case 'c': return fmt("char '%c'", *(const char *) v.ptr); case 'C': return "colour{a=11,r=22,g=33,b=44}";
+	case 'c': return fmt("char '%c'", *(const char *) v.ptr); case 'C': { const mpt::color *c = (const mpt::color *) v.ptr; return fmt("colour{a=%02x,r=%02x,g=%02x,b=%02x}", c->alpha, c->red, c->green, c->blue); }
 	case 'P': return fmt("fpoint{%g,%g}", (double) ((const float *) v.ptr)[0], (double) ((const float *) v.ptr)[1]);
 	case 'L': return "lineattr{2,3,4,5}"; case 's': return std::string("const char * \"") + *(const char * const *) v.ptr + "\"";
 	}
@@ -350,6 +353,8 @@ struct Model {
 	std::vector<bool> poly;                     // property whose read-back type varies with the value
 	std::vector<std::pair<int, std::string>> rich;   // script that makes a sibling differ from the default in every property it can
 	std::vector<Val> autovals;
+	std::vector<Val> mvals;                     // value alphabet of this target: the common one + every property default spelled explicitly
+	std::deque<std::string> dyn_txt; std::deque<mpt::color> dyn_col;
 	std::vector<std::string> ophint;            // fault-attribution prefix per op
 	std::vector<bool> builder;                  // ops used to build the prefix states of the deep (b3) jobs
 
@@ -388,7 +393,7 @@ struct Model {
 	int raw_op(Inst &x, const Op &o, Snap *sibsnap = 0) const
 	{
 		switch (o.t) {
-		case O_SET: return deliver(x, names[o.name].n.c_str(), o.name < 0 ? vals[0] : (names[o.name].cls ? vals_small[o.val] : vals[o.val]));
+		case O_SET: return deliver(x, names[o.name].n.c_str(), names[o.name].cls ? vals_small[o.val] : mvals[o.val]);
 		case O_RESET: { Lib l; return x.obj->set_property(names[o.name].n.c_str(), 0); }
 		case O_RESETALL: { Lib l; return x.obj->set_property("", 0); }
 		case O_RESETNULL: { Lib l; return x.obj->set_property(0, 0); }
@@ -403,7 +408,7 @@ struct Model {
 		}
 		return -1;
 	}
-	const Val &opval(const Op &o) const { return o.t == O_AUTO ? autovals[o.val] : (names[o.name].cls ? vals_small[o.val] : vals[o.val]); }
+	const Val &opval(const Op &o) const { return o.t == O_AUTO ? autovals[o.val] : (names[o.name].cls ? vals_small[o.val] : mvals[o.val]); }
 	std::string opname(const Op &o) const
 	{
 		switch (o.t) {
@@ -475,6 +480,29 @@ struct Model {
 			miss = 0; pname.push_back(pr.name); ppos.push_back(pos);
 		}
 		def = snapshot(x);
+		// values: the common alphabet + the default of every property of this kind written out as an explicit value (text, and typed
+		// for colours), for colours also the neighbour that differs only in alpha: an explicit value that happens to equal some
+		// default must be stored like any other
+		mvals = vals;
+		{
+			std::set<std::string> seen; for (const Val &v : vals) if (v.txt) seen.insert(v.txt);
+			auto addtxt = [&](int cls, const std::string &t) { if (t.empty() || !seen.insert(t).second) return; dyn_txt.push_back(t); mvals.push_back(Val{cls, dyn_txt.back().c_str(), 0, 0}); };
+			std::set<unsigned> cols;
+			for (size_t i = 0; i < def.v.size(); ++i) {
+				const std::string &d = def.v[i]; unsigned a, r, g, b; int iv; double fv, fw;
+				if (sscanf(d.c_str(), "colour:a=%x,r=%x,g=%x,b=%x", &a, &r, &g, &b) == 4) {
+					for (unsigned da = 0; da < 2; ++da) {
+						unsigned aa = a ^ da;
+						addtxt(V_COLOUR, fmt("#%02x%02x%02x%02x", r, g, b, aa));
+						if (cols.insert(aa << 24 | r << 16 | g << 8 | b).second) { dyn_col.push_back(mpt::color(r, g, b, aa)); mvals.push_back(Val{V_TCOL, 0, 'C', &dyn_col.back()}); }
+					}
+				}
+				else if (sscanf(d.c_str(), "y:%d", &iv) == 1 || sscanf(d.c_str(), "n:%d", &iv) == 1 || sscanf(d.c_str(), "u:%d", &iv) == 1) addtxt(V_NUM, std::to_string(iv));
+				else if (sscanf(d.c_str(), "c:%d", &iv) == 1) { if (iv > 32 && iv < 127) addtxt(V_TEXT, std::string(1, (char) iv)); }
+				else if (sscanf(d.c_str(), "f:%la", &fv) == 1 || sscanf(d.c_str(), "d:%la", &fv) == 1) addtxt(V_FRAC, fmt("%.9g", fv));
+				else if (sscanf(d.c_str(), "fpoint:%la,%la", &fv, &fw) == 2) addtxt(V_POINT, fmt("%.9g %.9g", fv, fw));
+			}
+		}
 		// names: listed, case variants, prefixes, alias candidates
 		std::set<std::string> have;
 		auto add = [&](const std::string &n, int target, int cls) { if (n.empty() || !have.insert(n).second) return; names.push_back(NameEnt{n, target, cls}); };
@@ -500,7 +528,7 @@ struct Model {
 		}
 		// ops
 		for (size_t n = 0; n < names.size(); ++n) {
-			size_t nv = names[n].cls ? vals_small.size() : vals.size();
+			size_t nv = names[n].cls ? vals_small.size() : mvals.size();
 			for (size_t v = 0; v < nv; ++v) ops.push_back(Op{O_SET, (int) n, (int) v, 0, false});
 		}
 		for (size_t n = 0; n < names.size(); ++n) ops.push_back(Op{O_RESET, (int) n, 0, 0, false});
